@@ -11,7 +11,7 @@ def _c27_work(args):
   for tid in range(lo, hi):
     rng = random.Random((seed << 21) ^ (tid * 2654435761 % (1 << 32)))
     nt = rng.choice([2, 2, 3])
-    progs = {"t%d" % (i + 1): [[rng.randrange(5), rng.randint(1, 3)] for _ in range(rng.randint(1, 2))] for i in range(nt)}
+    progs = {"t%d" % (i + 1): [[rng.randrange(len(tsadrive.C27_FORMS)), rng.randint(1, 3)] for _ in range(rng.randint(1, 2))] for i in range(nt)}
     pol = dsched.RandomPolicy(rng, rng.choice([0.0, 0.4, 0.7])) if tid % 2 else dsched.PCTPolicy(rng, 3, 60)
     r = tsadrive.c27_run(progs, dsched.FairSuffix(pol, 500))
     r["tid"], r["progs_d"] = tid, progs
@@ -36,7 +36,8 @@ def _c27_explore(args):
 def c27(tier):
   run = common.Run("C27", tier, "model_checking")
   run.assumptions += ASSUME_B + ["pre-emption points: every acquire/release of the attribute's lock and every read/write of the descriptor's private fields",
-                                 "statements: read, plain assignment, += -= *= of one attribute of one object"]
+                                 "statements: read, plain assignment, += -= *= of an attribute x of one object, `x += y` / `y = v` / `y += v` with a second thread-safe "
+                                 "attribute y of the same object, and `holder.o.x += v` where o is itself a thread-safe attribute; serializability is judged on the pair (x, y)"]
   for prog, fin in (("ProgDef", "Final"), ("Prog2", "Final2")):
     cfg = ("SPECIFICATION Spec\nCONSTANTS Threads = {\"t1\", \"t2\"}\nProg <- %s\nFixed = TRUE\nINVARIANT NoErr\nINVARIANT %s\n"
            "INVARIANT LockFree\nINVARIANT NoDeadlock\nCHECK_DEADLOCK FALSE\n" % (prog, fin))
@@ -47,14 +48,15 @@ def c27(tier):
     run.add(states=r.distinct, transitions=r.generated, tlc_runs=["TSA %s, per-thread marker: %d distinct states; NoErr, serial final value, LockFree, NoDeadlock hold" % (prog, r.distinct)])
   n = 1500 if tier == "quick" else 30000
   chunk = max(1, (n + 63) // 64)
-  pairs = [([f1, 2], [f2, 3]) for f1 in range(5) for f2 in range(5) if not (f1 == 0 and f2 == 0)]
+  nf = len(tsadrive.C27_FORMS)
+  pairs = [([f1, 2], [f2, 3]) for f1 in range(nf) for f2 in range(f1, nf) if not (f1 == 0 and f2 == 0)]
   with mp.get_context("fork").Pool(16) as pool:
     recs = [x for part in pool.map(_c27_work, [(common.seed(), lo, min(n, lo + chunk)) for lo in range(0, n, chunk)]) for x in part]
     sysr = [x for part in pool.map(_c27_explore, pairs) for x in part]
   for i, r in enumerate(sysr):
     r["tid"] = n + i
   recs += sysr
-  v, t = trace_validate("TSATrace", [{"tid": r["tid"], "kind": "c27", "progs": [r["progs_d"][k] for k in sorted(r["progs_d"])], "init": 1,
+  v, t = trace_validate("TSATrace", [{"tid": r["tid"], "kind": "c27", "progs": [r["progs_d"][k] for k in sorted(r["progs_d"])], "init": [1, 2],
                                       "final": r["final"], "errors": r["errors"], "outcome": r["outcome"], "done": r["done"],
                                       "lock_count": r["lock_count"]} for r in recs])
   for r in recs:
